@@ -144,12 +144,17 @@ def frontendsOp (args : List String) : Option OpEval := do
       -- oracle: every front-end returns exactly the interval of the counts it implies
       let n := xs.length; let k := bs.count true
       let z := crit (.z conf.quantile)
+      let nk : List Tok := [.s (toString n), .s (toString k)]
+      let o7 := nk ++ nk ++ nk ++ nk ++ o1
       let cs := match impl with
-        | [a, b, c, d] =>
+        | [a, b, c, d, e, f, g] =>
           oracleWilson conf n k z a ++
-          (if a == b && a == c && d == [toString n, toString k] ++ a then [] else ["front-ends-disagree"])
+          (if a == b && a == c && d == [toString n, toString k] ++ a then [] else ["front-ends-disagree"]) ++
+          (if e == a && f == a then [] else ["container-with-gaps-differs"]) ++
+          (if g == [toString n, toString k, toString n, toString k, toString n, toString k, toString n, toString k] ++ a then []
+           else ["counts-from-an-iterator-with-an-inexact-size-hint-differ"])
         | _ => ["malformed"]
-      { model := joinBar [o1, o2, o3, o4], prop := cs } }
+      { model := joinBar [o1, o2, o3, o4, o1, o2, o7], prop := cs } }
 
 /-- bits of a `0`/`1` string (`-` is the empty sequence) -/
 def parseBits? (t : String) : Option (List Bool) :=
@@ -212,7 +217,7 @@ def ratioOp (args : List String) : Option OpEval := do
       -- oracle: the ratio k/n must give the interval of the counts (n, k)
       let cs := match parseNat? kTok, impl with
         | some k, [a] =>
-          if k == 0 then (if outcomeClass a == "NonPositiveValue" then [] else ["zero-rate-accepted"])
+          if k == 0 && rate ≤ 0.0 then (if outcomeClass a == "NonPositiveValue" then [] else ["zero-rate-accepted"])
           else oracleWilson conf n k z a
         | none, [a] =>
           if rate.isNaN then [] else
@@ -353,11 +358,13 @@ def qciOp {T : Type} [Cmp T] [Codec T] (args : List String) : Option OpEval := d
       let m16 := tokOutcome tokElemInterval (Quantile.ciMaxSize 16 crit conf xs q)
       let m1024 := tokOutcome tokElemInterval (Quantile.ciMaxSize 1024 crit conf xs q)
       let idx := tokOutcome tokNatInterval (Quantile.ciIndices crit conf xs.length q)
-      let nperm := impl.length - 5
+      -- the pre-sorted entry point on the data as given
+      let raw := tokOutcome tokElemInterval (Quantile.ciSortedUnchecked crit conf xs q)
+      let nperm := impl.length - 7
       -- oracle: the bounds are the order statistics at the ranks the implementation itself reports,
       -- whatever the order in which the data are supplied; entry points agree
       let cs := match impl with
-        | a :: b :: c :: d :: ix :: perms =>
+        | a :: b :: c :: d :: ix :: rw :: sp :: perms =>
           let sorted := xs.mergeSort (fun x y => Cmp.le x y)
           let same (u v : List String) : Bool := (toksEq 0 u v).1
           let elems : List String :=
@@ -391,9 +398,18 @@ def qciOp {T : Type} [Cmp T] [Codec T] (args : List String) : Option OpEval := d
            else (if outcomeClass c == "panic-capacity" then [] else ["capacity-overflow-not-a-panic"])) ++
           (if xs.length ≤ 1024 then (if same d a then [] else ["fixed-capacity-differs"])
            else (if outcomeClass d == "panic-capacity" then [] else ["capacity-overflow-not-a-panic"])) ++
-          (if isPanic then [] else [])
+          (if isPanic then [] else []) ++
+          -- a container with gaps gives what the dense data give
+          (if same sp a then [] else ["sparse-container-differs"]) ++
+          -- the pre-sorted entry point on unsorted data: never an Ok with its bounds inverted
+          (match rw, pList (α := T) (toString xs.length :: xs.map Codec.enc) with
+           | ["ok", "I2", lo, hi], _ =>
+             (match (Codec.dec lo : Option T), (Codec.dec hi : Option T) with
+              | some x, some y => if Cmp.lt y x then ["ok-with-inverted-bounds"] else []
+              | _, _ => [])
+           | _, _ => [])
         | _ => ["malformed"]
-      { model := joinBar ([ci, srt, m16, m1024, idx] ++ List.replicate nperm ci), prop := cs } }
+      { model := joinBar ([ci, srt, m16, m1024, idx, raw, ci] ++ List.replicate nperm ci), prop := cs } }
 
 /-- `index n n p => Stats::new(n).index(p)` -/
 def indexOp (args : List String) : Option OpEval := do
